@@ -73,6 +73,16 @@ func goEnv() []string {
 		env = append(env, e)
 	}
 	env = append(env, "GOWORK=off", "GOFLAGS=-mod=mod", "GOPROXY=off", "GOTOOLCHAIN=local", "GOSUMDB=off")
+	// /repo needs go >= 1.25; the sandbox's default go is older. Prefer the
+	// pre-installed newer toolchain when present.
+	const newer = "/opt/veriftools/go1.26.8/bin"
+	if st, err := os.Stat(newer); err == nil && st.IsDir() {
+		for i, e := range env {
+			if strings.HasPrefix(e, "PATH=") && !strings.HasPrefix(e, "PATH="+newer) {
+				env[i] = "PATH=" + newer + ":" + strings.TrimPrefix(e, "PATH=")
+			}
+		}
+	}
 	return env
 }
 
